@@ -51,7 +51,8 @@ def fixture():
     if 'd' in _FIX:
         return _FIX['d']
     base = pathlib.Path(tempfile.mkdtemp(prefix='c19fix_', dir=scratch_root()))
-    rs = {'tree': TREE, 'n_genes': 20, 'cells_per': 10, 'seed': 17, 'dtype': 'int32', 'enc': 'csr', 'shuffle': True}
+    rs = {'tree': TREE, 'n_genes': 20, 'cells_per': 10, 'seed': 17, 'dtype': 'int32', 'enc': 'csr', 'shuffle': True,
+          'family': 'nested'}
     pipeline.write_ref_h5ad(base / 'ref.h5ad', rs)
     tmp = base / 'tmp'
     tmp.mkdir()
@@ -89,7 +90,8 @@ def stage_args(stage, params, indir):
     if stage == 'stats':
         a.update(hierarchy=TREE['hierarchy'], rows_at_a_time=params.get('rows_at_a_time', 9))
     elif stage == 'qmark':
-        a.update(genes=_FIX['genes'])
+        gs = params.get('genes')
+        a.update(genes=_FIX['genes'] if not gs else [f'g{i}' for i in gs])
     elif stage == 'mapping':
         a['cfg'] = {'chunk_size': 3, 'n_processors': params['n_processors'], 'bootstrap_iteration': 4, 'bootstrap_factor': 0.8,
                     'n_runners_up': 2, 'min_markers': 2, 'normalization': params.get('normalization', 'raw'), 'rng_seed': 23,
@@ -186,10 +188,13 @@ class History(RuleBasedStateMachine):
             self._fail('file_created_outside_requested_outputs', {'after': what, 'files': sorted(bad)[:8]})
 
     # ------------------------------------------------------------ rules
-    @rule(stage=st.sampled_from(STAGES), n_processors=st.integers(1, 3), small_budget=st.booleans())
-    def run_ok(self, stage, n_processors, small_budget):
+    @rule(stage=st.sampled_from(STAGES), n_processors=st.integers(1, 3), small_budget=st.booleans(),
+          gene_subset=st.one_of(st.just([]), st.lists(st.integers(0, 19), min_size=1, max_size=5, unique=True)))
+    def run_ok(self, stage, n_processors, small_budget, gene_subset=()):
         self.step += 1
         params = {'n_processors': n_processors}
+        if stage == 'qmark' and gene_subset:
+            params['genes'] = sorted(gene_subset)
         if stage == 'mapping' and small_budget:
             params['max_gb'] = 1e-9
         tag = f's{self.step}'
@@ -382,7 +387,8 @@ def check(spec):
             name = step[0]
             try:
                 if name == 'run_ok':
-                    m.run_ok(stage=step[1], n_processors=step[2]['n_processors'], small_budget='max_gb' in step[2])
+                    m.run_ok(stage=step[1], n_processors=step[2]['n_processors'], small_budget='max_gb' in step[2],
+                             gene_subset=step[2].get('genes', []))
                 elif name == 'run_injected_failure':
                     m.run_injected_failure(stage=step[1], worker=step[2], mode=step[3], point=step[4], at=step[5])
                 elif name == 'run_invalid_mapping':
